@@ -165,6 +165,14 @@ def h_mps_whole(H, net, training):
         model.export()
         H.ensure('[C18] export:cost-read-after-export-in-training-mode-equals-the-cost-before', H.eq(H.scalar(model.get_cost()), c_before))
         H.ensure('[C18] export:training-mode-kept', all(m.training for m in model.modules()))
+        # ... and the sequence training forward (soft coefficients) -> eval() -> export() without a forward pass in between: the cost read before the next
+        # forward pass is still the one of the coefficients the last forward pass sampled
+        model.eval()
+        c_eval = H.scalar(model.get_cost())
+        H.ensure('[C18] export:eval-after-training-forward-reads-the-sampled-coefficients', H.eq(c_eval, c_before))
+        model.export()
+        H.ensure('[C18] export:cost-read-after-export-in-eval-mode-equals-the-cost-before', H.eq(H.scalar(model.get_cost()), c_eval))
+        H.ensure('[C18] export:eval-mode-kept', all(not m.training for m in model.modules()))
 
 
 def h_mps_per_channel(H, net):
